@@ -11,7 +11,7 @@
   where it does not (probe-confirmed for heights 2–4 after an early delegation) the code silently
   skips the validator, and `issuance` says exactly that (`rewardedDeleg`).
 -/
-import RigoProofs.C13Balance
+import RigoProofs.C13Reach2
 
 namespace Rigo.C13
 open Rigo
@@ -93,22 +93,42 @@ theorem withdraw_exact_too_much {s : St} {h : Int} {tx : TxIn} {sender : Account
   obtain ⟨_, ⟨h1, h2⟩, _, _⟩ := findOrNewAcct_frAll s true tx.to
   exact ⟨rfl, h1, h2, findOrNew_facts s tx sender hsnd⟩
 
-/-- **reward_balance_inv**, full statement (NOT proved at this strength): along every reachable history
-    the cumulated reward of every key moves only by issuance (up) and by its own withdrawals (down). -/
-def reward_balance_inv_statement : Prop :=
-  ∀ (g : Genesis) (s : St) (op : Op), Reachable g s → op.isInit = false → ∀ k : String,
-    (cumOf (step s op).1 k > cumOf s k → ∃ h, op = .begin_ h) ∧
-    (cumOf (step s op).1 k < cumOf s k →
-      (∃ tx, op = .deliver tx ∧ tx.type = TRX_WITHDRAW ∧ k = ledgerKey tx.from_ ∧
-        (step s op).1.ghost.withdrawn - s.ghost.withdrawn = cumOf s k - cumOf (step s op).1 k) ∨ op = .restart)
+/-- **reward_balance_inv** — second sentence of C13: "an account's withdrawable reward always equals
+    everything issued to it minus everything it has withdrawn".  For every well-phased history `ops`
+    (BeginBlock, DeliverTx*, EndBlock, Commit; CheckTx anywhere; restart only between blocks) from
+    genesis, under the explicit no-wrap bound `NoWrap` (no issuance wraps a cumulated reward, no sender
+    balance + cumulated reward wraps), and for every account key `k`:
+    `cumulated k + withdrawnBy k = issuedTo k`, where the two ghost sums are defined by recursion over the
+    history from the operations themselves (`issuedIn`: the stakes of the matching signers when the
+    reward event fires; `withdrawnIn`: the request of `k`'s own DeliverTx TRX_WITHDRAW answered with
+    code 0).  Also: every reward record is stored under the ledger key of its own address and is
+    below 2^256 (`RewardInv`).
+    The phase discipline is necessary: the model's `restart` in the middle of a block is a crash that
+    discards the uncommitted issuance of that block. -/
+theorem reward_balance_inv (g : Genesis) (ops : List Op) (q : Phase) (hp : phaseRun .idle ops = some q)
+    (hn : NoWrap (initChain g) ops) :
+    (∀ k, cumOf (exec (initChain g) ops) k + withdrawnBy (initChain g) ops k = issuedTo (initChain g) ops k) ∧
+    RewardInv (exec (initChain g) ops) := by
+  obtain ⟨h1, h2⟩ := balance_run ops (initChain g) .idle q (Reachable.start g) hp (balInv_init g) hn
+  refine ⟨fun k => ?_, h2.rinv⟩
+  have h0 : cumOf (initChain g) k = 0 := by
+    obtain ⟨_, ⟨hrw, _⟩, _⟩ := C15.initChain_ifr g
+    have : (initChain g).rewards = {} := by rw [hrw]; rfl
+    simp [cumOf, this]
+  have := h1 k
+  omega
 
-/-- **reward_balance_inv_partial** — the step-wise facts that are proved: EndBlock and Commit never move a
-    cumulated reward; a DeliverTx of another type moves neither rewards nor the withdrawal counter; a
-    successful withdrawal lowers exactly the sender's cumulated reward by the request and counts it.
-    Missing for the full statement: CheckTx (touches `rewards.chk` only — needs the `exec = false` frame of
-    `execWithdraw`), failed withdrawals (code ≠ 0 ⇒ rewards unchanged), and the reachable-state invariants
-    `AcctKeyed` / `RewardKeyed` / `cumulated < 2^256` that discharge the hypotheses of the withdrawal case. -/
-theorem reward_balance_inv_partial :
+/-- the same at an arbitrary reachable start: one well-phased operation moves the two sides alike -/
+theorem reward_balance_step {g : Genesis} {s : St} (hr : Reachable g s) {p p' : Phase} {op : Op}
+    (hp : phaseStep p op = some p') (hi : BalInv p s) (hb : stepBound s op) :
+    (∀ k, cumOf (step s op).1 k + withdrawnAt s op k = cumOf s k + issuedBy s op k) ∧ BalInv p' (step s op).1 :=
+  balance_step hr hp hi hb
+
+/-- per-operation facts behind it (any state, no phase discipline): EndBlock and Commit never move a
+    cumulated reward; a DeliverTx of another type moves neither rewards nor the withdrawal counter of the
+    state (`ghost.withdrawn`); a successful withdrawal lowers exactly the sender's cumulated reward by the
+    request and counts it; CheckTx and failed withdrawals leave the consensus view of the reward ledger alone. -/
+theorem reward_balance_ops :
     (∀ s k, cumOf (endBlock s).1 k = cumOf s k) ∧
     (∀ s k, cumOf (commit s).1 k = cumOf s k) ∧
     (∀ s tx k, tx.type ≠ TRX_WITHDRAW →
@@ -119,9 +139,12 @@ theorem reward_balance_inv_partial :
       sender.bal + req < two256 → r.cumulated < two256 →
       cumOf (deliverTx s tx).1 (ledgerKey tx.from_) = cumOf s (ledgerKey tx.from_) - req ∧
       (∀ k, k ≠ ledgerKey tx.from_ → cumOf (deliverTx s tx).1 k = cumOf s k) ∧
-      (deliverTx s tx).1.ghost.withdrawn = s.ghost.withdrawn + req) :=
+      (deliverTx s tx).1.ghost.withdrawn = s.ghost.withdrawn + req) ∧
+    (∀ s ht tx, (handleTx s false ht tx).1.rewards.fin = s.rewards.fin) ∧
+    (∀ s ht tx, tx.type = TRX_WITHDRAW → (handleTx s true ht tx).2.code ≠ 0 → (handleTx s true ht tx).1.rewards = s.rewards) :=
   ⟨endBlock_cum, commit_cum, fun s tx k h => deliver_other_cum s tx h k,
-   fun _ _ _ _ _ _ hb ht ok a b c d => deliver_withdraw_cum hb ht ok a b c d⟩
+   fun _ _ _ _ _ _ hb ht ok a b c d => deliver_withdraw_cum hb ht ok a b c d,
+   handleTx_check_rewards, handleTx_withdraw_fail⟩
 
 /-! ### non-vacuity: a concrete chain with one validator -/
 
@@ -162,5 +185,29 @@ example : ∃ sender req r, WithdrawOk sIn2 2 txW sender req r :=
 /-- withdrawing 31 fails and changes nothing -/
 example : (handleTx sIn2 true 2 { txW with payload := .withdraw 31 }).2.kind = "noreward" ∧
     cumOf (handleTx sIn2 true 2 { txW with payload := .withdraw 31 }).1 (ledgerKey addrA) = 30 := by decide
+
+/-- the ghost sums on the run "block 1; block 2 with the signed vote and the withdrawal of 5":
+    issued 30, withdrawn 5, cumulated 25 — the two sides of `reward_balance_inv` -/
+def run2 : List Op :=
+  [.begin_ { height := 1 }, .end_, .commit, .begin_ header2, .deliver txW, .end_, .commit]
+
+example : phaseRun .idle run2 = some .idle ∧
+    issuedTo (initChain g1) run2 (ledgerKey addrA) = 30 ∧ withdrawnBy (initChain g1) run2 (ledgerKey addrA) = 5 ∧
+    cumOf (exec (initChain g1) run2) (ledgerKey addrA) = 25 := by decide
+
+/-- `NoWrap` is satisfiable (first block of any chain: nothing is issued, nothing withdrawn) -/
+example (g : Genesis) : NoWrap (initChain g) [.begin_ { height := 1 }, .end_, .commit] := by
+  refine ⟨?_, trivial, trivial, trivial⟩
+  intro k
+  have h0 : cumOf (initChain g) k = 0 := by
+    obtain ⟨_, ⟨hrw, _⟩, _⟩ := C15.initChain_ifr g
+    have : (initChain g).rewards = {} := by rw [hrw]; rfl
+    simp [cumOf, this]
+  have hi : (beginBlock (initChain g) { height := 1 }).2.issued = none := by
+    cases hx : (beginBlock (initChain g) { height := 1 }).2.issued with
+    | none => rfl
+    | some n => have := (beginBlock_issued hx).2.1; simp at this
+  have : issuedIn (initChain g) { height := 1 } k = 0 := by simp [issuedIn, hi]
+  rw [h0, this]; unfold two256; omega
 
 end Rigo.C13
